@@ -9,7 +9,7 @@ from . import C14
 
 ID = 'C03'
 PROFILES = ['dev']
-BOUNDS = {'program matrix': 'every statement / expression form (40 one-operand, 38 two-operand) with X of every kind {undefined name, mysterious, null, boolean, number, string, array, empty array, function} and the other operand of kind {number, string, array, null}: 1728 programs parsed by the real parser, all literals symbolic, executed by the real interpreter and by the reference interpreter; written lines and outcome (success / runtime error) compared; forms the reference leaves undefined (cut / join / cast statements, array == array, string indexing) are kernel-level only',
+BOUNDS = {'program matrix': 'every statement / expression form (51 one-operand, 38 two-operand; X is printed after every form) with X of every kind {undefined name, mysterious, null, boolean, number, string, array, empty array, function} and the other operand of kind {number, string, array, null}: 1827 programs parsed by the real parser, all literals symbolic, executed by the real interpreter and by the reference interpreter; written lines and outcome (success / runtime error) compared; forms the reference leaves undefined (cut / join / cast statements, array == array, string indexing) are kernel-level only',
           'operators': 'all 13 binary operators x all 36 kind pairs, payloads symbolic (all doubles, all strings, both booleans)',
           'arrays': 'sequence length 0..=2, scalar elements, dictionary 0..=1 entries (array == array is checked by C14 laws, not by the table)',
           'list operands': 'rhs lists of 2 and 3 thunks (arrays <= 1 element without dictionary in quick, <= 2 with dictionary in thorough), each yielding a lazily symbolic value or failing; compared with the nested single-operator evaluation (same real code), including which thunks ran',
